@@ -190,6 +190,7 @@ def _run(ctx):
                     continue
             return None
         return None
+    tls = lib.table_lookups(F, ids0)
     if len(takes) == 1:
         for w_ in (1, 5, 8, 13):
             for h_ in (1, 3, 4):
@@ -202,6 +203,11 @@ def _run(ctx):
                                 k = key_of_call(b2, x["args"][0])
                                 return env.get(k)
                             if kind == "operand":
+                                # the number of components looked up by the colour space name in a table kept in data
+                                for lk_ in tls:
+                                    j_ = lib.lookup_field(b2, x, lk_) if b2 is ids0 else None
+                                    if j_ is not None and any(r_[j_] == ("int", ncol) for r_ in lk_["rows"]):
+                                        return ncol
                                 q = op_place_(x)
                                 if q is not None and not q["p"]:
                                     ds = b2.defs.get(q["l"], [])
@@ -229,6 +235,8 @@ def _run(ctx):
                 for kk, v in lib.slice_matches(x, bi, via=via).items():
                     if isinstance(v, bytes):
                         names.add(v)
+    for lk_ in lib.table_lookups(F, ids):
+        names |= {r_[lk_["key_field"]][1] for r_ in lk_["rows"] if r_[lk_["key_field"]][0] == "bytes"}
     want = {b"DeviceGray", b"G", b"DeviceRGB", b"RGB", b"DeviceCMYK", b"CMYK"}
     ctx.ob("R-TABLE", "inline-image|colour-space-names", want <= names, "inline images accept %s" % sorted(n.decode("latin1") for n in names & want), ids.where(),
            what="image_data_stream does not accept the colour space name(s) %s of ISO 32000-1 Table 93: a content stream with such an inline image does not decode" % sorted(n.decode() for n in want - names))
